@@ -3,9 +3,10 @@
    layer, after fixes F8 F9 F16) on top of model/MultipartRef.v (one-piece
    scanner; C06 relates it to the streaming parser).  Spec side (encoder
    enc_form, guards, expected dictionaries): proofs/C07_spec.v. *)
-From Verif Require Import lib.Base lib.Str lib.Utf8 gen.Gen model.MultipartRef model.Fields.
+From Verif Require Import lib.Base lib.Str lib.Utf8 gen.Gen.
+From Verif Require Import model.Stream model.Body model.MultipartRef model.Multipart model.Fields model.BodyPipeline.
 From Verif Require Import proofs.C07_fields proofs.C07_spec proofs.C07_ref proofs.C07_roundtrip proofs.C07_collect
-  proofs.C07_full proofs.C07_pins.
+  proofs.C07_full proofs.C07_streaming proofs.C07_pipeline proofs.C07_pins.
 
 (* The regular expression re-implemented by Fields.scan_key/scan_value/opt_matches
    is the one in /repo today (text regenerated into Gen.v on every run). *)
@@ -77,9 +78,49 @@ Theorem C07_no_cross_part_bytes :
 Proof. exact no_cross_part_bytes. Qed.
 Print Assumptions C07_no_cross_part_bytes.
 
-(* Not covered by these theorems (see C06): the body is parsed here by the
-   one-piece scanner [ref]; the streaming parser equals it on well-formed bodies
-   (proofs/C06_global.v: stream_eq_ref) when CR does not occur in the boundary. *)
+(* STREAMING, ANY CHUNKING.  When CR does not occur in the boundary, the encoded
+   form is a well-formed body in the sense of C06 (wf_prefix), hence (C06:
+   stream_eq_ref) the streaming parser fed the body in ANY chunks — whatever
+   max_memfile_size and framing cut it into — reports the same sections, and the
+   round trip holds for Request.POST computed from the streaming markup. *)
+Theorem C07_encoded_form_well_formed :
+  forall (B : bytes) (fs : list fld), lacks 13 B -> parts_ok B fs -> wf_prefix B (enc_form B fs).
+Proof. exact enc_form_wf. Qed.
+Print Assumptions C07_encoded_form_well_formed.
+
+Theorem C07_roundtrip_streaming :
+  forall (B : bytes) (fs : list fld) (mem : Z) (chunks : list bytes),
+    lacks 13 B -> parts_ok B fs -> (total_cost fs <= mem)%Z ->
+    concat chunks = enc_form B fs ->
+    exists d, post_of_markup (enc_form B fs) (markup_chunks B chunks) mem = POk d
+              /\ view (enc_form B fs) d = Some (expected fs).
+Proof. exact roundtrip_streaming. Qed.
+Print Assumptions C07_roundtrip_streaming.
+
+(* THROUGH THE WHOLE PIPELINE MODEL (model/BodyPipeline.v: process).  With
+   CONTENT_TYPE = multipart/form-data; boundary=b (b non-empty, without ; CR LF),
+   Content-Length framing with the exact length, ANY fragmentation schedule of
+   the input stream, ANY max_memfile_size > 0 that the header blocks and text
+   values fit in (the body may be larger and spill to disk), no max_body_size, and
+   ANY json oracle: Request.forms / files / POST succeed and show exactly the
+   submitted fields. *)
+Theorem C07_roundtrip_through_pipeline :
+  forall (jk : bytes -> option jkind) (cfg : config) (b : str) (fs : list fld) (sc : list nat) (a : access),
+    form_access a ->
+    b <> [] -> lacks SEMI b -> lacks 10 b -> lacks 13 b -> scalars b ->
+    parts_ok (utf8_enc_str b) fs ->
+    (0 < c_memfile cfg)%nat -> c_maxbody cfg = None ->
+    (total_cost fs <= Z.of_nat (c_memfile cfg))%Z ->
+    let body := enc_form (utf8_enc_str b) fs in
+    exists d,
+      process jk cfg (mp_ctype b) (mkFraming (Z.of_nat (length body)) false) (stream_init body sc) a
+        = Ok (VMultipart d)
+      /\ view body d = Some (expected fs).
+Proof. exact roundtrip_pipeline. Qed.
+Print Assumptions C07_roundtrip_through_pipeline.
+
+(* Not proved: the same through chunked framing (C05 relates the chunked reader
+   to the payload; the composition is covered by the correspondence check only). *)
 
 (* Finding F10 (not repaired): an upload whose file name is empty is delivered in
    forms with value None; the round trip therefore requires fn <> [] (in fld_ok). *)
